@@ -447,7 +447,7 @@ class CursorResultMetaData(ResultMetaData):
                 for metadata_entry in raw
             }
 
-            if len(by_key) != num_ctx_cols:
+            if len(by_key) != num_ctx_cols or len(raw) != num_ctx_cols:
                 # if by-primary-string dictionary smaller than
                 # number of columns, assume we have dupes; (this check
                 # is also in place if string dictionary is bigger, as
